@@ -299,13 +299,17 @@ class LinenApi:
     if key not in self.classes.cache:
       stmt = {'op': 'child', 'cls': 'Sub', 'name': None, 'body': st['body']}
       self.classes.cache[key] = (self.classes.compact_class(stmt), stmt)
-    sub = self.classes.cache[key][0]()
+    sub = self.classes.cache[key][0](parent=None)  # detached: not a submodule of the enclosing module
     mut = filter_py(st['m'])
     rngs = {'params': the_key()}
-    if st.get('init'):
-      r = sub.init_with_output(rngs, a, mutable=mut)
-    else:
-      r = sub.apply(unflatten_vars(st['vars']), a, rngs=rngs, mutable=mut)
+    inits0 = Guard.inits  # initialisations inside the nested call belong to its own scope, not to the enclosing one
+    try:
+      if st.get('init'):
+        r = sub.init_with_output(rngs, a, mutable=mut)
+      else:
+        r = sub.apply(unflatten_vars(st['vars']), a, rngs=rngs, mutable=mut)
+    finally:
+      Guard.inits = inits0
     y, state = (r, {}) if mut is False else (r[0], r[1])
     dg = F32(1000 * len(state))
     fj, _ = flatten_vars(state) if not is_tracer(y) else ({'cols': [], 'vars': []}, [])
@@ -1335,6 +1339,42 @@ def gen_clash(rng, kind):
   return body, clash
 
 
+DECL_KINDS = ['param', 'var:stats', 'var:cache', 'var:params', 'sub']
+
+
+def decl_stmt(kind, name, i):
+  if kind == 'param':
+    return {'op': 'param', 'n': name, 'shape': [2] if i % 2 else [], 'init': 1 + i}
+  if kind == 'sub':
+    return {'op': 'child', 'cls': 'A', 'name': name, 'body': [{'op': 'ret', 'e': 'x'}]}
+  return {'op': 'variable', 'c': kind.split(':')[1], 'n': name, 'shape': [3] if i % 2 else [], 'e': 2 + i}
+
+
+def decl_col(kind):
+  return None if kind == 'sub' else ('params' if kind == 'param' else kind.split(':')[1])
+
+
+def decl_sequence_expect(kinds):
+  """index of the first declaration that must raise: some earlier declaration of the same name in this scope has the
+  same collection, or either one is a submodule (None reservation); None when the sequence is legal"""
+  for i, k in enumerate(kinds):
+    for k0 in kinds[:i]:
+      c0, c1 = decl_col(k0), decl_col(k)
+      if c0 is None or c1 is None or c0 == c1:
+        return i
+  return None
+
+
+def decl_sequence_prog(kinds, nested_level=False, other=False):
+  body = [decl_stmt(k, 'n0', i) for i, k in enumerate(kinds)]
+  if other:
+    body.insert(1, {'op': 'variable', 'c': 'stats', 'n': 'zz1', 'shape': [], 'e': 0})
+  body.append({'op': 'ret', 'e': 'x'})
+  if nested_level:
+    body = [{'op': 'child', 'cls': 'C', 'name': None, 'body': body}, {'op': 'call', 'slot': 0, 'e': 'x'}, {'op': 'ret', 'e': {'l': 0}}]
+  return body
+
+
 def depth_of(body):
   return 1 + max([depth_of(st['body']) for st in body if st['op'] == 'child'] + [0])
 
@@ -1400,6 +1440,7 @@ def run_scenario(R, sc):
     Guard.peak = 0.0
     Guard.inits = 0
     Guard.shadow, Guard.stale = {}, []
+    Guard.nested = []
     if sc['kind'] == 'init':
       r = R.init(rngs, x, mut, capture=sc.get('capture', False))
     else:
@@ -1407,7 +1448,8 @@ def run_scenario(R, sc):
     results.append((r, Guard.inits))
     peaks.append(Guard.peak)
     lost += written_values_lost(r, Guard.shadow, Guard.stale)
-    Guard.shadow, Guard.stale = None, None
+    obs['nested'] = Guard.nested
+    Guard.shadow, Guard.stale, Guard.nested = None, None, None
   obs['lost_writes'] = lost
   obs['peak'] = max(peaks)
   obs['inits'] = results[0][1]
